@@ -50,3 +50,11 @@ Theorem C05_tables_disjoint :
   forallb (fun s => negb (existsb (String.eqb s) gen_env_promote)) gen_suppress = true.
 Proof. exact suppress_promote_disjoint. Qed.
 Print Assumptions C05_tables_disjoint.
+
+(** (A) the tie to /repo's current source: every function this property's models were transcribed from has, in the
+    tree this run is checking, the normalised source it had when the models were validated (hashes regenerated from
+    /repo into gen/Generated.v on every run; pins in gen/SourcePins.v).  A change to one of them invalidates the
+    transcription until it is re-validated. *)
+From UsimGen Require SourcePins Pin_C05.
+Theorem C05_modelled_source_unchanged : forallb SourcePins.pin_ok Pin_C05.pins = true.
+Proof. exact Pin_C05.src_unchanged. Qed.
